@@ -83,6 +83,38 @@ def r02_9(run):
     borrow(run, c01.r01_7, 'R02.9')
 
 
+def r02_10(run):
+    """every line of an event reaches the text that is dispatched, exactly once, whatever is subscribed while it arrives (rule R01.8,
+    shared): who receives an event is decided when its last line arrives, so no line may be skipped earlier"""
+    borrow(run, c01.r01_8, 'R02.10')
+
+
+def r02_11(run):
+    """delivery is the last thing _handle_notify does with the listener table: a listener may remove the last listener of its
+    event (itself) during delivery, which deletes self.events[name] - any use of that entry after got_update() raises KeyError out
+    of dataReceived, losing the rest of the segment and leaving the reply code at 650"""
+    hn = U(run, '_handle_notify')
+    g = cfg_of(hn)
+    deliver = g.nodes_where(lambda n: any(isinstance(a, ast.Call) and callee_attr(a) == 'got_update' for a in node_asts(n)))
+    run.floor('R02.11', 'deliveries in _handle_notify', len(deliver), 1)
+    for d in deliver:
+        after = g.reachable([s_ for lab, s_ in d.succ if lab != 'exc'], follow_exc=False)
+        uses = [n for n in after if n is not d and n.kind in ('stmt', 'test', 'iter') and
+                any(isinstance(a, ast.Subscript) and dotted(a.value) == 'self.events' and isinstance(a.ctx, ast.Load) for a in node_asts(n))]
+        # a use is fine only behind a membership test that is itself evaluated after the delivery
+        bad = []
+        for n in uses:
+            ok = False
+            for t, lab in g.guarded_by(n, lambda t_: isinstance(t_, ast.Compare) and len(t_.ops) == 1 and isinstance(t_.ops[0], ast.In) and dotted(t_.comparators[0]) == 'self.events'):
+                if lab == 'T' and t in after:
+                    ok = True
+            if not ok:
+                bad.append(n)
+        run.ob('R02.11', hn, d.ast, 'the listener table entry is not used again after the delivery', not bad, slot='entry-after-delivery',
+               message='_handle_notify reads self.events[...] again after got_update() (%s): a listener that removes the last listener of that event during delivery '
+                       'has deleted the entry, the KeyError escapes dataReceived and the following events of the segment are lost' % [src(n.ast)[:50] for n in bad][:2])
+
+
 def _event_cls(run):
     return run.idx.cls('Event', MOD)
 
@@ -328,12 +360,16 @@ RULES = [
     ('R02.7', 'who-may-write: the event/reply line accumulator is written only by the line machine (issuing a command cannot wipe a half-received event)', r02_7),
     ('R02.8', 'listener removal removes the given callback by equality (no identity test on callbacks)', r02_8),
     ('R02.9', 'framing: every received line reaches the machine once (R01.7 borrowed)', r02_9),
+    ('R02.10', 'every line of an event reaches the dispatched text exactly once, independent of the subscriptions at that moment (R01.8 borrowed)', r02_10),
+    ('R02.11', 'no use of self.events[name] after the delivery in _handle_notify (the entry may be gone)', r02_11),
     ('R02.6', 'events dispatched only via self.events[name] under membership guard, only from _handle_notify', r02_6),
 ]
 
 from ..selftest import M  # noqa: E402
 F = 'txtorcon/torcontrolprotocol.py'
 MUTANTS = [
+    M('event-lines-dropped-while-unsubscribed', F, "        else:\n            self.response += (line[4:] + '\\n')", "        elif not (self.code >= 600 and not self.events):\n            self.response += (line[4:] + '\\n')", ['R02.10/R01.8']),
+    M('entry-read-after-delivery', F, "            self.events[name].got_update(rest[len(name) + 1:])\n            return", "            self.events[name].got_update(rest[len(name) + 1:])\n            txtorlog.msg(len(self.events[name].callbacks))\n            return", ['R02.11']),
     M('ok-cut-before-dispatch', F, "        self.response = ''\n        if self.code is None:\n            raise RuntimeError(\"No code set yet in broadcast response.\")", "        self.response = ''\n        if resp.endswith('\\nOK'):\n            resp = resp[:-3]\n        if self.code is None:\n            raise RuntimeError(\"No code set yet in broadcast response.\")", ['R02.1']),
     M('code-600-refused', F, "        elif self.code >= 600 and self.code < 700:", "        elif self.code > 600 and self.code < 700:", ['R02.1']),
     M('payload-by-whitespace-split', F, "self.events[name].got_update(rest[len(name) + 1:])", "self.events[name].got_update(rest.split(None, 1)[1] if len(rest.split(None, 1)) > 1 else '')", ['R02.6']),
